@@ -209,18 +209,18 @@ Theorem C09_wrap_original_refuted :
 Proof. split; vm_compute; reflexivity. Qed.
 
 Theorem C09_fin_limit_original_refuted :
-  hist_okb (mkVariant true false true true) (ztake 8 w_S) 1000 w_fin = false /\
+  hist_okb (mkVariant true false true true false false) (ztake 8 w_S) 1000 w_fin = false /\
   hist_okb fixedv (ztake 8 w_S) 1000 w_fin = true.
 Proof. split; vm_compute; reflexivity. Qed.
 
 Theorem C09_keepfrom_original_refuted :
-  hist_okb (mkVariant true true false true) w_S 5000 w_keep = false /\
-  hist_okb (mkVariant true true false true) w_S 5000 w_keep_panic = false /\
+  hist_okb (mkVariant true true false true false false) w_S 5000 w_keep = false /\
+  hist_okb (mkVariant true true false true false false) w_S 5000 w_keep_panic = false /\
   hist_okb fixedv w_S 5000 w_keep = true /\ hist_okb fixedv w_S 5000 w_keep_panic = true.
 Proof. repeat split; vm_compute; reflexivity. Qed.
 
 Theorem C09_late_syn_original_refuted :
-  hist_okb (mkVariant true true true false) (ztake 8 w_S) 7000 w_latesyn = false /\
+  hist_okb (mkVariant true true true false false false) (ztake 8 w_S) 7000 w_latesyn = false /\
   hist_okb fixedv (ztake 8 w_S) 7000 w_latesyn = true.
 Proof. split; vm_compute; reflexivity. Qed.
 
